@@ -360,7 +360,18 @@ static void on_fault (int sig, siginfo_t *si, void *ucv) {
     log_flush ();
     _exit (41);
   }
-  ev ("{\"e\":\"Crash\",\"sig\":%d,\"pc\":%ld}", sig, pc);
+  {
+    /* does a register hold a pointer read from a released (0xDD-filled) block? */
+    int poison = 0;
+#if defined(__x86_64__)
+    int i;
+    for (i = 0; i < NGREG; i++)
+      if (i != REG_EFL && i != REG_CSGSFS && i != REG_ERR && i != REG_TRAPNO
+          && ((unsigned long long) uc->uc_mcontext.gregs[i] >> 16) == 0xDDDDDDDDDDDDULL)
+        poison = 1;
+#endif
+    ev ("{\"e\":\"Crash\",\"sig\":%d,\"poison\":%d,\"pc\":%ld}", sig, poison, pc);
+  }
   log_flush ();
   sigaction (SIGSEGV, &old_segv, NULL); /* ASan's handler (if any) reports the re-executed access */
   sigaction (SIGBUS, &old_bus, NULL);
